@@ -672,7 +672,7 @@ func newConfig(w int) *bondgo.BondgoConfig {
 	return config
 }
 
-func compileWorker(f *ast.File, config *bondgo.BondgoConfig, res *compRes, mu *sync.Mutex, done chan struct{}, usagenotify chan bondgo.UsageNotify) {
+func compileWorker(f *ast.File, config *bondgo.BondgoConfig, res *compRes, mu *sync.Mutex, done chan struct{}, usagenotify chan bondgo.UsageNotify, wantMachine bool) {
 	defer func() {
 		if r := recover(); r != nil {
 			mu.Lock()
@@ -752,7 +752,10 @@ func compileWorker(f *ast.File, config *bondgo.BondgoConfig, res *compRes, mu *s
 		// the machine cmd/bondgo -save-machine would write: built from the requirement tables, the
 		// emitted program assembled for it (errors are printed to stdout by the package: captured)
 		setPhase("machine")
-		mach := machineSummary(bgmain, int(config.Rsize))
+		mach := ""
+		if wantMachine {
+			mach = machineSummary(bgmain, int(config.Rsize))
+		}
 		mu.Lock()
 		res.mach = mach
 		mu.Unlock()
@@ -823,7 +826,9 @@ func compileInProc(src string, w int, sched string) *compRes {
 	var mu sync.Mutex
 	done := make(chan struct{})
 	usagenotify := make(chan bondgo.UsageNotify)
-	go compileWorker(f, newConfig(w), res, &mu, done, usagenotify)
+	// the machine is a function of the requirement tables and the assembly, both compared under every
+	// schedule: building it once (natural schedule) is enough
+	go compileWorker(f, newConfig(w), res, &mu, done, usagenotify, sched == "0")
 	v := waitDone(done, []string{"main.compileWorker", "Var_assigner", "Usage_Monitor"})
 	mu.Lock()
 	defer mu.Unlock()
@@ -857,7 +862,7 @@ func rescue(done chan struct{}, usagenotify chan bondgo.UsageNotify) {
 	}
 }
 
-var scheds = []string{"0", "s1:300", "s2:150"}
+var scheds = []string{"0", "s1:100", "s2:50"}
 
 func emitProgram(id int, p *prog, src string, salt int, extraSched string) {
 	fuel := 10
